@@ -20,8 +20,8 @@ import (
 // alphabets
 
 // "a" and "a/" differ only by a trailing slash; one key holds a backslash; three hold per cent signs ("a%%" is what a
-// formatting function makes "a%" of, "v%d" asks for an argument); the last one is the empty key, which both backends accept
-var Keys = []string{"a", "a/", "b", "ab", "a/b", "k1", `c\d`, "a%", "a%%", "v%d", ""}
+// formatting function makes "a%" of, "v%d" asks for an argument); then the empty key, which both backends accept, and a key that contains the Redis backend's own key prefix
+var Keys = []string{"a", "a/", "b", "ab", "a/b", "k1", `c\d`, "a%", "a%%", "v%d", "", "a/kvs/b"}
 var Vals = [][]byte{nil, {}, []byte("x"), []byte("yy")}
 
 // Patterns: the subset on which gobwas/glob (no separators) and Redis MATCH agree.
